@@ -10,30 +10,30 @@ SPEC = dict(
     unit_flags={"verif:harness/C40_ftp.cc": ["-fno-pic"]},
     entries=dict(
         quick=[
-            dict(name="c40_pasv_host", bounds="Ftp::ParseIpPort on '2bb,0,0,1,4,1' | '10,0,0,bb,4,1' | '0,0,b,b,4,1'" + _PASV, reach=["accepted", "rejected"], sample_every=61),
-            dict(name="c40_pasv_port", bounds="Ftp::ParseIpPort on '10,0,0,1,2bb,1' | '10,0,0,1,bb,1' | '10,0,0,1,0,bb' | '10,0,0,1,b,25b' | '10,0,0,1,4,1bb'" + _PASV, reach=["accepted", "rejected"], sample_every=97),
-            dict(name="c40_pasv_huge", bounds="Ftp::ParseIpPort on '10,0,0,1,4,42949672bb' | '42949672bb,0,0,1,4,1' | '10,0,0,1,-b,1b' | '10,0,0,1,4,184467440737095516bb' | '10,0,0,1,21474836bb,1'" + _PASV, reach=["accepted", "rejected"], sample_every=97),
-            dict(name="c40_eprt_addr", bounds="Ftp::ParseProtoIpPort on 'b1b10.0.0.1|8080|' | '|bb10.0.0.1|8080|' | '|1|10.0.0.bb|8080|' | '|1|2bb.0.0.1|8080|' | '|1|0.0.0.b|8080|' | '|1|10.0.0.1b8080b'" + _EPRT, reach=["accepted", "rejected"], sample_every=61),
-            dict(name="c40_eprt_port", bounds="Ftp::ParseProtoIpPort on '|1|10.0.0.1|' + one of 'bb|' '102bb' '655bb|' '42949673bb|' '21474836bb|' '-b|' '92233720368547758bb|'" + _EPRT, reach=["accepted", "rejected"], sample_every=61),
-            dict(name="c40_eprt_v6", bounds="Ftp::ParseProtoIpPort on '|b|::b|8080|' | '|b|1.2.3.4|8080|' | '|2|b:b:1|8080|' | '|2|::ffff:1.2.3.b|8080|' (no '%')" + _EPRT, reach=["accepted", "rejected"], sample_every=31),
-            dict(name="c40_short", bounds="every NUL-terminated string of 0..2 bytes through Ftp::ParseIpPort (forceIp on/off) and of 1..2 bytes (no '%') through Ftp::ParseProtoIpPort (its callers reject empty parameters first)", reach=["rejected"], sample_every=31),
-            dict(name="c40_list_unix", bounds="ftpListParseParts on 7 Unix-style skeleton lines with 2 symbolic bytes each (size/day digits, end of the time field, start of the name, link arrow and target, type letter, month spelling, empty name, short day, a line of 70 tokens)" + _LIST, reach=["parsed", "unparsed"], sample_every=97),
-            dict(name="c40_list_other", bounds="ftpListParseParts on 3 DOS-style and 4 EPLF skeleton lines with 2 symbolic bytes each" + _LIST, reach=["parsed", "unparsed"], sample_every=61),
-            dict(name="c40_list_short", bounds="ftpListParseParts on every line of 0..3 fully symbolic bytes, listing mode and NLST mode (flags.tried_nlst), flags.skip_whitespace in {0,1}", reach=["parsed", "unparsed"], sample_every=31),
+            dict(name="c40_pasv_host", bounds="Ftp::ParseIpPort on '25b,0,0,1,4,1' | '10,0,0,bb,4,1' | '0,0,0,b,4,1'" + _PASV, reach=["accepted", "rejected"], sample_every=97),
+            dict(name="c40_pasv_port", bounds="Ftp::ParseIpPort on '10,0,0,1,25b,1' | '10,0,0,1,0,bb' | '10,0,0,1,b,b' | '10,0,0,1,3,25b' | '10,0,0,1,4,1b'" + _PASV, reach=["accepted", "rejected"], sample_every=197),
+            dict(name="c40_pasv_huge", bounds="Ftp::ParseIpPort on '10,0,0,1,4,429496729b' | '429496729b,0,0,1,4,1' | '10,0,0,1,4,-b' | '10,0,0,1,4,1844674407370955161b' | '10,0,0,1,214748364b,1'" + _PASV, reach=["accepted", "rejected"], sample_every=31),
+            dict(name="c40_eprt_addr", bounds="Ftp::ParseProtoIpPort on 'b1b10.0.0.1|8080|' | '|b|10.0.0.1|8080|' | '|1|25b.0.0.1|8080|' | '|1|0.0.0.b|8080|' | '|1|10.0.0.1b8080b' | '|1|' + 72..76 x '1' + 'b|8080|' (around the 75-byte MAX_IPSTRLEN buffer)" + _EPRT, reach=["accepted", "rejected"], sample_every=97),
+            dict(name="c40_eprt_port", bounds="Ftp::ParseProtoIpPort on '|1|10.0.0.1|' + one of 'bb|' '102b|' '6553b|' '429496737b|' '214748364b|' '-b|' '922337203685477580b|'" + _EPRT, reach=["accepted", "rejected"], sample_every=61),
+            dict(name="c40_eprt_v6", bounds="Ftp::ParseProtoIpPort on '|b|::1|8080|' | '|2|::b|8080|' | '|b|1.2.3.4|8080|' | '|2|b::1|8080|' | '|2|::ffff:1.2.3.b|8080|' (no '%')" + _EPRT, reach=["accepted", "rejected"], sample_every=31),
+            dict(name="c40_short", bounds="every NUL-terminated string of 0..2 bytes through Ftp::ParseIpPort (forceIp on/off) and of 1..2 bytes (no '%') through Ftp::ParseProtoIpPort (its callers reject empty parameters first)", reach=["rejected"], sample_every=97),
+            dict(name="c40_list_unix", bounds="ftpListParseParts on 7 Unix-style skeleton lines with 2 symbolic bytes each (size/day digit, end of the time field and start of the name, link arrow, type letter and link target, empty name, line ending at the month, a line of 70 tokens)" + _LIST, reach=["parsed", "unparsed"], sample_every=197),
+            dict(name="c40_list_other", bounds="ftpListParseParts on 3 DOS-style and 3 EPLF skeleton lines with 2 symbolic bytes each" + _LIST, reach=["parsed", "unparsed"], sample_every=197),
+            dict(name="c40_list_short", bounds="ftpListParseParts on every line of 0..3 fully symbolic bytes, listing mode and NLST mode (flags.tried_nlst), flags.skip_whitespace in {0,1}", reach=["parsed", "unparsed"], sample_every=97),
         ],
         thorough=[
-            dict(name="c40_pasv_host", bounds="as quick plus '10,0,0,bbb,4,1' | 'bb,bb,0,1,4,1'" + _PASV, reach=["accepted", "rejected"], sample_every=997),
-            dict(name="c40_pasv_port", bounds="as quick plus '10,0,0,1,bbb,1' | '10,0,0,1,0,bbb' | '10,0,0,1,bb,bb'" + _PASV, reach=["accepted", "rejected"], sample_every=997),
-            dict(name="c40_pasv_huge", bounds="as quick plus '10,0,0,1,4,9223372036854775bbb' | '10,0,0,-2147483bbb,4,1'" + _PASV, reach=["accepted", "rejected"], sample_every=997),
-            dict(name="c40_eprt_addr", bounds="as quick plus 'bbb10.0.0.1|8080|' | '|1|bbb.1|8080|' | '|b|10.0.0.1b8080b'" + _EPRT, reach=["accepted", "rejected"], sample_every=997),
-            dict(name="c40_eprt_port", bounds="as quick plus ports 'bbb|' '10bbb' '6bbbb|'" + _EPRT, reach=["accepted", "rejected"], sample_every=997),
-            dict(name="c40_eprt_v6", bounds="as quick plus '|2|1::bb|8080|' | '|2|bbb|8080|'" + _EPRT, reach=["accepted", "rejected"], sample_every=197),
+            dict(name="c40_pasv_host", bounds="as quick plus '2bb,0,0,1,4,1' | '0,0,b,b,4,1' | '10,0,0,bbb,4,1'" + _PASV, reach=["accepted", "rejected"], sample_every=997),
+            dict(name="c40_pasv_port", bounds="as quick plus '10,0,0,1,b,25b' | '10,0,0,1,2bb,1' | '10,0,0,1,bb,1' | '10,0,0,1,4,1bb' | '10,0,0,1,bbb,1' | '10,0,0,1,0,bbb'" + _PASV, reach=["accepted", "rejected"], sample_every=997),
+            dict(name="c40_pasv_huge", bounds="as quick with two symbolic bytes per template, plus '10,0,0,1,-b,1b' | '10,0,0,1,bb,-b' | '10,0,0,1,4,92233720368547758bb' | '10,0,0,-21474836bb,4,1'" + _PASV, reach=["accepted", "rejected"], sample_every=997),
+            dict(name="c40_eprt_addr", bounds="as quick plus '|bb10.0.0.1|8080|' | '|1|10.0.0.bb|8080|' | '|1|2bb.0.0.1|8080|' | 'bbb10.0.0.1|8080|' | '|1|bbb.1|8080|'" + _EPRT, reach=["accepted", "rejected"], sample_every=997),
+            dict(name="c40_eprt_port", bounds="as quick with two symbolic bytes per boundary template, plus port 'bbb|'" + _EPRT, reach=["accepted", "rejected"], sample_every=997),
+            dict(name="c40_eprt_v6", bounds="as quick plus '|b|::b|8080|' | '|2|b:b:1|8080|' | '|2|1::bb|8080|' | '|2|bbb|8080|'" + _EPRT, reach=["accepted", "rejected"], sample_every=197),
             dict(name="c40_short", bounds="as quick, strings up to 3 bytes", reach=["rejected"], sample_every=197),
-            dict(name="c40_list_unix", bounds="as quick plus 3 skeleton lines with 4 symbolic bytes (size+day, link name, year/time field)" + _LIST, reach=["parsed", "unparsed"], sample_every=997),
-            dict(name="c40_list_other", bounds="as quick plus 3 skeleton lines with 3-4 symbolic bytes" + _LIST, reach=["parsed", "unparsed"], sample_every=997),
+            dict(name="c40_list_unix", bounds="as quick plus 6 more skeleton lines with 2-3 symbolic bytes (month spelling, short day, link name, year/time field)" + _LIST, reach=["parsed", "unparsed"], sample_every=997),
+            dict(name="c40_list_other", bounds="as quick plus 4 more skeleton lines with 2-3 symbolic bytes" + _LIST, reach=["parsed", "unparsed"], sample_every=997),
             dict(name="c40_list_short", bounds="as quick, lines up to 4 bytes", reach=["parsed", "unparsed"], sample_every=997),
         ]),
-    timeout=dict(quick=170, thorough=900),
+    timeout=dict(quick=400, thorough=1800),
     stubs=["getaddrinfo/freeaddrinfo model in the harness (bitcode build only): glibc numeric-host semantics = inet_aton_exact (1-4 parts, decimal/octal/hex) else inet_pton(AF_INET6) without scope ids; native replay uses glibc",
            "regcomp/regexec model in the harness (bitcode build only): POSIX ERE subset used by ftpListParseParts (^ $ literals, bracket lists, +, REG_ICASE, REG_NOSUB)",
            "ctime model (bitcode build only; the listing parser only ever passes time 0)",
